@@ -12,9 +12,12 @@
 //!   control plane and to the model side by side.
 //! * `battery` — the read battery (KQL / META) and how answers are
 //!   canonicalised for a relational comparison between two Nexus instances.
+//! * `gate`    — the command-gate matrix of the META family (every AST variant
+//!   x single-permission Principals), run by the `commands` part.
 
 pub mod actions;
 pub mod battery;
 pub mod fixture;
+pub mod gate;
 pub mod model;
 pub mod pop;
